@@ -122,6 +122,9 @@ def run(res, tier, br, model_ok=True, search=False):
                 first = first or (name, tr["outcome"], tr.get("fatal_by"), str(m)[:200], src[-120:])
         if nbad:
             res.broken.append(f"correspondence engine: {nbad} disagreements, e.g. {first}")
+    if model_ok:
+        import alwayscorr
+        alwayscorr.check(res, [(n, s_) for n, s_, _ in allc[:: (1 if big else 3)]])
     res.sample({"engine": {"name": allc[0][0], "iterations": [it["decision"] for it in run_traced(allc[0][0], allc[0][1])["iterations"][:12]]}})
 
 
